@@ -84,7 +84,7 @@ def run_mc(ctx, max_n, max_m):
                 if runs and min(runs) < m_:
                     nt += 1
     ctx.nontrivial += nt
-    ctx.exhaustive = True
+    ctx.parts[-1]['exhaustive_within_bound'] = True        # the bounded part is complete; the run as a whole also samples beyond it
     ctx.sample({'input': [1, 1, 0, 1, 1, 1, 0, 1], 'min_n_cycles': 3, 'table_index': 'Index(b,m) = ((2^len-1)+mask)*(MaxM+1)+m'})
     return res
 
